@@ -729,6 +729,40 @@ int sim_pthread_mutex_unlock(pthread_mutex_t *m) {
   return 0;
 }
 
+// ---- atomics ----
+// clang's ThreadSanitizer instrumentation turns C11 / GNU atomic operations into calls of __tsan_atomic<N>_<op>.  Under the scheduler one thread
+// runs at a time, so the plain operation is atomic; what has to be modelled is ordering: every atomic operation is a release of the thread's clock
+// into the object and an acquire of the object's clock (sequentially consistent, the strongest reading: fewer race reports, never more).  The
+// driver still lists the symbols as synchronisation the detector treats conservatively.
+struct SimAtomic { uint32_t vc[MAXSLOT]; };
+static std::unordered_map<const volatile void *, SimAtomic> g_atomic_objs;
+static inline void atomic_sync(const volatile void *a) {
+  if (!g_active) return;
+  SimThread *me = self();
+  SimAtomic &o = g_atomic_objs[a];
+  for (int s = 0; s < MAXSLOT; s++) { if (o.vc[s] > me->vc[s]) me->vc[s] = o.vc[s]; else o.vc[s] = me->vc[s]; }
+  me->vc[me->slot]++;
+}
+#define SIM_ATOMIC_FAMILY(T, N) \
+  extern "C" T __tsan_atomic##N##_load(const volatile T *a, int) { atomic_sync(a); return *a; } \
+  extern "C" void __tsan_atomic##N##_store(volatile T *a, T v, int) { atomic_sync(a); *a = v; } \
+  extern "C" T __tsan_atomic##N##_exchange(volatile T *a, T v, int) { atomic_sync(a); T o = *a; *a = v; return o; } \
+  extern "C" T __tsan_atomic##N##_fetch_add(volatile T *a, T v, int) { atomic_sync(a); T o = *a; *a = (T)(o + v); return o; } \
+  extern "C" T __tsan_atomic##N##_fetch_sub(volatile T *a, T v, int) { atomic_sync(a); T o = *a; *a = (T)(o - v); return o; } \
+  extern "C" T __tsan_atomic##N##_fetch_and(volatile T *a, T v, int) { atomic_sync(a); T o = *a; *a = (T)(o & v); return o; } \
+  extern "C" T __tsan_atomic##N##_fetch_or(volatile T *a, T v, int) { atomic_sync(a); T o = *a; *a = (T)(o | v); return o; } \
+  extern "C" T __tsan_atomic##N##_fetch_xor(volatile T *a, T v, int) { atomic_sync(a); T o = *a; *a = (T)(o ^ v); return o; } \
+  extern "C" T __tsan_atomic##N##_fetch_nand(volatile T *a, T v, int) { atomic_sync(a); T o = *a; *a = (T)~(o & v); return o; } \
+  extern "C" int __tsan_atomic##N##_compare_exchange_strong(volatile T *a, T *c, T v, int, int) { atomic_sync(a); if (*a == *c) { *a = v; return 1; } *c = *a; return 0; } \
+  extern "C" int __tsan_atomic##N##_compare_exchange_weak(volatile T *a, T *c, T v, int, int) { atomic_sync(a); if (*a == *c) { *a = v; return 1; } *c = *a; return 0; } \
+  extern "C" T __tsan_atomic##N##_compare_exchange_val(volatile T *a, T c, T v, int, int) { atomic_sync(a); T o = *a; if (o == c) *a = v; return o; }
+SIM_ATOMIC_FAMILY(uint8_t, 8)
+SIM_ATOMIC_FAMILY(uint16_t, 16)
+SIM_ATOMIC_FAMILY(uint32_t, 32)
+SIM_ATOMIC_FAMILY(uint64_t, 64)
+extern "C" void __tsan_atomic_thread_fence(int) {}
+extern "C" void __tsan_atomic_signal_fence(int) {}
+
 // ---- machine ----
 long sim_sysconf(int name) {
   if (g_active && g_cfg.nproc > 0 && (name == _SC_NPROCESSORS_ONLN || name == _SC_NPROCESSORS_CONF)) return g_cfg.nproc;
@@ -903,6 +937,7 @@ void sim_begin_run(const sim_cfg *c) {
   g_ovf.clear();
   g_race_idx.clear(); g_race_list.clear(); g_races = 0;
   g_mutexes.clear();
+  g_atomic_objs.clear();
   g_active = true;
 }
 
